@@ -57,6 +57,7 @@ type Profile struct {
 	FailActs     float64  // probability that a token's upstream behaviour is a failure
 	FailKinds    []string // the failures FailActs chooses from (default: all)
 	MixedActs    float64  // first attempts fail, later succeed
+	TCAnswers    float64  // the upstream's own answer carries the TC flag (records and all)
 	Garbage      float64  // probability that an op is garbage
 	GarbageReply float64
 	// HugeAnswers: answers at the 64 KiB boundary (upstreams are stream kinds then).
@@ -191,6 +192,7 @@ func ProfileFor(focus, arm string) Profile {
 		p.EDNSProb = 0.7
 		p.OptInReply = 0.5
 		p.Listeners = []string{"udp", "udp", "tcp", "gnet", "https", "http"}
+		p.TCAnswers = 0.08
 	case "C15":
 		p.Listeners = []string{"udp", "udp", "tcp", "http", "gnet", "tls", "https", "quic", "gnet", "tcp"}
 		p.Cache = "off"
@@ -968,6 +970,9 @@ func genToken(r *rng, pr *Profile, qtype uint16) *plan.TokenSpec {
 	}
 	if r.p(0.1) {
 		a.Bits |= refdns.BitCD
+	}
+	if pr.TCAnswers > 0 && r.p(pr.TCAnswers) {
+		a.Bits |= refdns.BitTC
 	}
 	switch pr.TTLs {
 	case "edge":
